@@ -114,8 +114,15 @@ def build(rnd, tier, flags):
     from vf.props import c06
     r = gen.R(rnd)
     extra = {}
+    # half of the histories draw all their unit and subprogram names from four names, so that a top-level unit of one
+    # source and a nested unit of another often share a name
+    pool = None
+    if r.chance(50):
+        pool = [gen.UNIT_NAMES[r.n(0, len(gen.UNIT_NAMES) - 1)] for _ in range(4)]
+        pool = sorted(set(pool), key=pool.index)
     for k in range(r.n(1, 3)):
-        units, flat, g = progs.make_program(rnd, list(flags) + ["no_defined_binop_before_dotted"], max_units=2, max_stmts=3)
+        units, flat, g = progs.make_program(rnd, list(flags) + ["no_defined_binop_before_dotted"], max_units=2, max_stmts=3,
+                                            unit_pool=pool)
         if r.chance(50):
             from vf import layout
             src = layout.free_layout(flat, rnd, progs.comment_only_opts(gen.ALL_NAMES)).text
@@ -126,6 +133,22 @@ def build(rnd, tier, flags):
         for _ in range(r.n(1, 2)):
             m = c06.mutate(r, m)
         extra["m%d" % k] = m
+        # a failing source whose error sits INSIDE a nested scoping unit that is named like a top-level unit of a
+        # generated source: that unit as a module procedure / internal procedure / interface body of another host
+        tops = [u for u in units if u.kind in ("subroutine", "function") and u.opener is not None]
+        if tops and r.chance(60):
+            u = r.pick(tops)
+            body = [gen.stmt_text(st) for st, _ in gen.flatten([u])]
+            at = r.n(1, max(1, len(body) - 1))
+            body.insert(at, r.pick(["x = = 1", "@@@", "call (", "y = sin(1.0, 2.0, 3.0)"]))
+            host = r.n(0, 2)
+            if host == 0:
+                n = ["module zz_host", "contains"] + body + ["end module zz_host"]
+            elif host == 1:
+                n = ["program zz_main", "zq = 1", "contains"] + body + ["end program zz_main"]
+            else:
+                n = ["subroutine zz_outer", "interface"] + body + ["end interface", "end subroutine zz_outer"]
+            extra["n%d" % k] = "\n".join(n) + "\n"
     syms = SYMS + sorted(extra)
     steps = [r.pick(["c3", "c8"])]
     for _ in range(r.n(3, 12)):
@@ -220,10 +243,10 @@ def failing_unit(src, errtext):
     for i, line in enumerate(src.split("\n"), 1):
         if i > errline:
             break
-        low = line.strip().lower()
+        low = re.sub(r"^\d+\s*", "", line.strip().lower())       # a statement label in front
         if low.startswith("end") and "!" in low:
             low = low.split("!", 1)[0].rstrip()      # an END statement holds no character context: the rest is a comment
-        if re.match(r"end\s*(subroutine|function|module|program|submodule|block\s*data)?\b(\s+\w+)?\s*$", low):
+        if re.match(r"end(\s*(subroutine|function|module|program|submodule|block\s*data)\b(\s+\w+)?)?\s*$", low):
             if i < errline:
                 if stack:
                     stack.pop()
@@ -233,7 +256,7 @@ def failing_unit(src, errtext):
         if low.startswith("end") or low.startswith("module procedure"):
             continue
         h = _HEADER.match(line)
-        if h and "=" not in line.split(h.group(1))[0]:
+        if h and "=" not in re.sub(r"\([^()]*\)", "", line.split(h.group(1))[0]):
             if i < errline or True:
                 stack.append(h.group(2).lower())
     if stack:
@@ -293,9 +316,15 @@ def evaluate(case):
                 if o["kind"] == "exit":
                     tag = ":exit"
                 else:
-                    tag = ":removed-preexisting-same-name" if (before - after) else ""
+                    own = failing_unit(sources[op], o.get("text", ""))
+                    tag = ""
+                    if before - after:
+                        # the recorded finding: clean-up by name removes an older table called like the failing
+                        # TOP-LEVEL unit; any other table disappearing is a different (unrecorded) violation
+                        tag = (":removed-preexisting-same-name" if {x.strip().lower() for x in before - after} <= {own, "fparser2:main_program"}
+                               else ":removed-unrelated-table")     # every failing source is also tried as a main
+                        #                                              program without PROGRAM statement
                     if after - before:
-                        own = failing_unit(sources[op], o.get("text", ""))
                         # the recorded finding is about tables of units matched BEFORE the failing one; the
                         # failing unit's own table staying behind is a different (unrecorded) violation
                         tag += ":own-table-left" if own in (after - before) else ":left-tables-of-earlier-units"
@@ -312,7 +341,7 @@ def evaluate(case):
         if o["kind"] == "tree":
             clean = False
     if failures:
-        other = [f for f in failures if f.bucket.endswith(":own-table-left") or
+        other = [f for f in failures if f.bucket.endswith(":own-table-left") or ":removed-unrelated-table" in f.bucket or
                  (not f.bucket.startswith("tables-changed-by-failed-parse:") and not f.bucket.endswith(":exit"))]
         return (other or failures)[0]
     return Result(True, None, nontrivial, labels)
